@@ -351,6 +351,26 @@ func (H) Execute(x *common.Exec, s any) {
 		return sb.String()
 	}
 	x.NonTrivial = len(all) >= 2 && len(sc.Tasks) >= 2
+	for _, d := range allDials {
+		if d.kind != "ok" {
+			x.Fault("dial:" + d.kind)
+		}
+	}
+	for _, r := range all {
+		if r.err != "" {
+			x.Fault("connection-request-failed")
+		}
+		if r.dones > 1 {
+			x.Fault("release-called-more-than-once")
+		}
+	}
+	for _, t := range sc.Tasks {
+		for _, op := range t {
+			if op.K == "cancel" {
+				x.Fault("context-cancelled")
+			}
+		}
+	}
 	// (a) at most one dial in flight per address
 	for a := 0; a < sc.Addrs; a++ {
 		x.Oblige(1)
